@@ -309,8 +309,10 @@ func (prophet *Prophet) SenderForBundle(bp BundleDescriptor) (sender []cla.Conve
 
 	for _, cs := range prophet.c.claManager.Sender() {
 		peerID := cs.GetPeerEndpointID()
+		prophet.dataMutex.RLock()
 		peerPred := prophet.peerPredictabilities[peerID][destination]
 		ownPred := prophet.predictabilities[destination]
+		prophet.dataMutex.RUnlock()
 
 		// is the peers delivery predictability for the destination greater than ours?
 		if peerPred > ownPred {
